@@ -75,13 +75,15 @@ def encode(c):
     if c["grp"] == "cache":
         outs = list(o.get("outs") or [])
         ops, k = [], 0
-        for v in (i.get("seq") or []) if o["accepted"] else []:
+        seq = (i.get("seq") or []) if o["accepted"] else []
+        ms = _c01.mappers(i, len(seq))
+        for step, v in enumerate(seq):
             if v < 0:
                 ops.append(C("CReload", Nat(-(v + 1))))
             elif k < len(outs):
                 x = outs[k]
                 k += 1
-                ops.append(C("CReq", Nat(v), T(_c01.enc_obs(x["cached"]), _c01.enc_obs(x["twin"]),
+                ops.append(C("CReq", Nat(v), _c01.enc_mapper(ms[step]), T(_c01.enc_obs(x["cached"]), _c01.enc_obs(x["twin"]),
                                              L([T(S(y[0]), S(y[1]), S(y[2])) for y in x.get("keys") or []]))))
             else:
                 break
@@ -116,6 +118,9 @@ def shrink_candidates(inp, grp):
         for s in range(0, n, k):
             cand = copy.deepcopy(inp)
             cand["seq"] = seq[:s] + seq[s + k:]
+            if inp.get("mappers"):
+                ms = inp["mappers"]
+                cand["mappers"] = ms[:s] + ms[s + k:]
             if cand["seq"] and cand["seq"] != seq:
                 yield cand
         k //= 2
